@@ -5,7 +5,7 @@ PENDING = "its encodable kernels are string/type functions the engine could exec
 
 NOT_APPLICABLE = {
     "C01": PENDING, "C02": PENDING, "C03": PENDING, "C04": PENDING, "C05": PENDING, "C06": PENDING,
-    "C07": "about bytes on disk in two caches after deletion/truncation; whether a damaged entry is a miss is decided by rogpeppe/go-internal/cache and cmd/go, garble's side is three `err != nil` branches with no arithmetic - nothing to encode symbolically beyond a file-system model that would be the whole claim",
+    "C07": "(the third cache, GARBLE_CACHE/tool, is exercised by C18's harness for deleted entries; a linker truncated behind an intact stamp cannot be told from a good one without a content hash) about bytes on disk in two caches after deletion/truncation; whether a damaged entry is a miss is decided by rogpeppe/go-internal/cache and cmd/go, garble's side is three `err != nil` branches with no arithmetic - nothing to encode symbolically beyond a file-system model that would be the whole claim",
     "C08": PENDING,
     "C09": "'does not appear verbatim' is probabilistic in the seed: a for-all-draws query is false on correct code (the solver exhibits degenerate keys such as an all-zero XOR key), and the rest is a scan of the linked binary",
     "C10": "concerns stderr and exit status of a process running the patched Go runtime; garble's part is a syntactic rewrite of runtime sources whose meaning only exists after compiling and running them",
